@@ -426,10 +426,45 @@ theorem combine_congr (Tc : Nat) (tipc : Nat → Fin N → Fin K → Fin S → F
     combine Tc tipc M st l r = combine Tc tipc M st' l r := by
   unfold combine; rw [hl, hr]
 
+/-- children below `tipCount` are not read from the list at all -/
+theorem combine_congr_ge (Tc : Nat) (tipc : Nat → Fin N → Fin K → Fin S → F) (M : Mats F K S)
+    (st st' : Store F N K S) (l r : Nat) (hl : Tc ≤ l → st.get l = st'.get l)
+    (hr : Tc ≤ r → st.get r = st'.get r) :
+    combine Tc tipc M st l r = combine Tc tipc M st' l r := by
+  unfold combine
+  show Part.ofFn _ = Part.ofFn _
+  congr 1
+  funext n k s
+  have key : ∀ c, (Tc ≤ c → st.get c = st'.get c) →
+      contrib Tc tipc M c (st.get c) n k s = contrib Tc tipc M c (st'.get c) n k s := by
+    intro c hc
+    unfold contrib
+    by_cases h : c < Tc
+    · simp [h]
+    · rw [hc (Nat.le_of_not_lt h)]
+  rw [key l hl, key r hr]
+
 theorem childOk_cases {T : Nat} {live : List Nat} {ch : Nat} (h : childOk T live ch = true) :
     ch < T ∨ ch ∈ live := by
   unfold childOk at h
   simpa only [Bool.or_eq_true, decide_eq_true_eq, List.contains_eq_mem] using h
+
+theorem wfAux_live_ge {T : Nat} : ∀ (ts : List Triple) (live done lf : List Nat),
+    (∀ i ∈ live, T ≤ i) → wfAux T ts live done = some lf → ∀ i ∈ lf, T ≤ i
+  | [], live, _, lf, h, hwf => by
+      simp only [wfAux, Option.some.injEq] at hwf
+      subst hwf; exact h
+  | t :: ts, live, done, lf, h, hwf => by
+      obtain ⟨hT, _, _, _, hwf'⟩ := wfAux_cons hwf
+      refine wfAux_live_ge ts _ _ lf ?_ hwf'
+      intro i hi
+      rcases List.mem_cons.mp hi with rfl | hi
+      · exact hT
+      · exact h i (consume_subset _ _ _ i (consume_subset _ _ _ i hi))
+
+/-- under `wf` the root slot is an internal slot -/
+theorem wf_root_ge {T : Nat} {ts : List Triple} (h : wf T ts = true) : T ≤ rootOf ts :=
+  wfAux_live_ge ts [] [] _ (fun _ h => by simp at h) (wf_unpack h) _ (List.mem_singleton.mpr rfl)
 
 /-- slots of tips and of already written internal nodes are not touched by the rest of the loop -/
 theorem peel_get_keep {T : Nat} (Tc : Nat) (tipc : Nat → Fin N → Fin K → Fin S → F) (M : Mats F K S) :
@@ -488,35 +523,36 @@ theorem peel_consistent {T : Nat} (M : Mats F K S) :
         simp [peelStep]
       · exact ih t' h n k s
 
-/-- two start lists that agree on the tips give the same slots wherever the loop has written -/
+/-- two start lists that agree on the tips that are READ (slots `≥ tipCount`; tip-state passes
+  never read tip slots) give the same slots wherever the loop has written -/
 theorem peel_indep {T : Nat} (Tc : Nat) (tipc : Nat → Fin N → Fin K → Fin S → F) (M : Mats F K S) :
     ∀ (ts : List Triple) (st st' : Store F N K S) (live done lf : List Nat),
       (∀ i ∈ live, i ∈ done) → wfAux T ts live done = some lf →
-      (∀ i, (i < T ∨ i ∈ done) → st.get i = st'.get i) →
-      ∀ i ∈ lf, (peel Tc tipc M st ts).get i = (peel Tc tipc M st' ts).get i
+      (∀ i, Tc ≤ i → (i < T ∨ i ∈ done) → st.get i = st'.get i) →
+      ∀ i ∈ lf, Tc ≤ i → (peel Tc tipc M st ts).get i = (peel Tc tipc M st' ts).get i
   | [], st, st', live, done, lf, hsub, hwf, hag => by
       simp only [wfAux, Option.some.injEq] at hwf
       subst hwf
-      intro i hi
-      exact hag i (Or.inr (hsub i hi))
+      intro i hi hge
+      exact hag i hge (Or.inr (hsub i hi))
   | t :: ts, st, st', live, done, lf, hsub, hwf, hag => by
       obtain ⟨hT, hnd, hl, hr, hwf'⟩ := wfAux_cons hwf
       have hsub' : ∀ i ∈ t.1 :: consume T (consume T live t.2.1) t.2.2, i ∈ t.1 :: done := by
         intro i hi
         simp only [List.mem_cons] at hi ⊢
         exact hi.imp id fun h => hsub i (consume_subset _ _ _ i (consume_subset _ _ _ i h))
-      have hag' : ∀ i, (i < T ∨ i ∈ t.1 :: done) →
+      have hag' : ∀ i, Tc ≤ i → (i < T ∨ i ∈ t.1 :: done) →
           (peelStep Tc tipc M st t).get i = (peelStep Tc tipc M st' t).get i := by
-        intro i hi
+        intro i hge hi
         unfold peelStep
         simp only [Store.get_set]
         by_cases hit : i = t.1
         · simp only [hit, if_true]
-          exact combine_congr Tc tipc M st st' _ _
-            (hag _ ((childOk_cases hl).imp id fun h => hsub _ h))
-            (hag _ ((childOk_cases hr).imp id fun h => hsub _ (consume_subset _ _ _ _ h)))
+          exact combine_congr_ge Tc tipc M st st' _ _
+            (fun h => hag _ h ((childOk_cases hl).imp id fun h => hsub _ h))
+            (fun h => hag _ h ((childOk_cases hr).imp id fun h => hsub _ (consume_subset _ _ _ _ h)))
         · simp only [hit, if_false]
-          refine hag i (hi.imp id fun h => ?_)
+          refine hag i hge (hi.imp id fun h => ?_)
           rcases List.mem_cons.mp h with h | h
           · exact absurd h hit
           · exact h
